@@ -30,6 +30,7 @@ import (
 	"regexp"
 	"sort"
 	"strings"
+	"sync"
 	"testing"
 	"time"
 
@@ -70,7 +71,9 @@ type Case struct {
 	// (different data, own per-slice fault tables; the last one has none)
 	Faults   []string  `json:"faults,omitempty"`
 	Replicas []Replica `json:"replicas,omitempty"`
-	Class    string    `json:"class,omitempty"`
+	// failover layer: further windows asked concurrently with the case's own: {start shift, end shift} in steps
+	Extra [][2]int `json:"extra,omitempty"`
+	Class string   `json:"class,omitempty"`
 }
 
 // Replica: one further upstream of the failover layer.
@@ -708,25 +711,48 @@ func checkFailover(c Case) (sh shape, err error) {
 		err error
 		pan any
 	}
-	done := make(chan out, 1)
-	go func() {
-		var o out
-		defer func() {
-			if p := recover(); p != nil {
-				o.pan = p
+	// the case's own window plus the extra ones, all asked AT THE SAME TIME on the one group (same expr and step:
+	// windows that overlap share 2h slices, and only the per-window lock would serialise them)
+	type win struct{ start, end int64 }
+	wins := []win{{c.Start, c.End}}
+	for _, e := range c.Extra {
+		w := win{c.Start + int64(e[0])*c.Step, c.End + int64(e[1])*c.Step}
+		if w.end > w.start {
+			wins = append(wins, w)
+		}
+	}
+	for _, u := range ups {
+		if len(c.DelaysUs) > 0 {
+			d := make([]time.Duration, len(c.DelaysUs))
+			for i, x := range c.DelaysUs {
+				d[i] = time.Duration(x) * time.Microsecond
 			}
-			done <- o
+			u.srv.SetDelays(d)
+		}
+	}
+	outs := make([]out, len(wins))
+	var wg sync.WaitGroup
+	gate := make(chan struct{})
+	for i, w := range wins {
+		wg.Add(1)
+		go func() {
+			defer wg.Done()
+			defer func() {
+				if p := recover(); p != nil {
+					outs[i].pan = p
+				}
+			}()
+			<-gate
+			outs[i].r, outs[i].err = fg.RangeQuery(context.Background(), "c13_metric", absRange{w.start, w.end, c.Step})
 		}()
-		o.r, o.err = fg.RangeQuery(context.Background(), "c13_metric", absRange{c.Start, c.End, c.Step})
-	}()
-	var o out
+	}
+	close(gate)
+	done := make(chan struct{})
+	go func() { wg.Wait(); close(done) }()
 	select {
-	case o = <-done:
+	case <-done:
 	case <-time.After(120 * time.Second):
 		return sh, fmt.Errorf("%w: RangeQuery did not return within 120s", errInconclusive)
-	}
-	if o.pan != nil {
-		return sh, fmt.Errorf("RangeQuery panicked: %v", o.pan)
 	}
 	var union []fakeprom.RangeRequest
 	contacted := 0
@@ -740,30 +766,101 @@ func checkFailover(c Case) (sh shape, err error) {
 		}
 		union = append(union, rq...)
 	}
-	if o.err != nil {
-		return sh, fmt.Errorf("%w: %v", errNoFailover, o.err)
-	}
-	ans := -1
-	for i, u := range ups {
-		if u.srv.URL() == o.r.URI {
-			ans = i
+	var deferred error // C13-K1 failures do not stop the other calls from being judged
+	judged := 0
+	for i, w := range wins {
+		o := outs[i]
+		if o.pan != nil {
+			return sh, fmt.Errorf("RangeQuery panicked: %v", o.pan)
+		}
+		if o.err != nil {
+			if i == 0 {
+				deferred = fmt.Errorf("%w: %v", errNoFailover, o.err)
+			}
+			continue // a call that fails has no result for C13 to judge
+		}
+		ans := -1
+		for k, u := range ups {
+			if u.srv.URL() == o.r.URI {
+				ans = k
+			}
+		}
+		if ans < 0 {
+			return sh, fmt.Errorf("the result names %q as its source, which is none of the %d upstreams", o.r.URI, len(ups))
+		}
+		a := ups[ans]
+		ac := a.c
+		ac.Start, ac.End = w.start, w.end
+		if i == 0 {
+			sh = classify(ac, a.srv, union)
+			sh.failedOver = contacted
+		}
+		// Windows shorter than a slice are evaluated on a grid anchored at their own start, sliced windows on the
+		// slice grid: concurrent calls can use different grid phases. The call is judged on the phase of the request
+		// that ends where its window ends (its trailing slice); if that slice came from the cache, on any phase seen.
+		judged++
+		var err error
+		for _, reqs := range byPhase(union, c.Step, w.end) {
+			want, rerr := reference(ac, a.srv, reqs)
+			if rerr != nil {
+				return sh, rerr
+			}
+			jerr := judge(ac, want, spansOf(o.r.Series.Ranges), reqs)
+			if jerr == nil {
+				err = nil
+				break
+			}
+			if err == nil {
+				err = jerr // report the disagreement on the call's own (preferred) grid
+			}
+		}
+		if err != nil {
+			err = fmt.Errorf("call %d of %d concurrent calls, window start=%d end=%d step=%ds (the case's window %+d/%+d steps), %d upstream(s), %d contacted, result attributed to upstream %d (%s): not the unsliced evaluation on that server: %w",
+				i+1, len(wins), w.start, w.end, c.Step, (w.start-c.Start)/c.Step, (w.end-c.End)/c.Step, len(ups), contacted, ans, o.r.URI, err)
+			if errors.Is(err, errBeforeStart) && presentBeforeStart(ac, a.srv, union) {
+				sh.followBeforeStart = true
+				if deferred == nil || errors.Is(deferred, errNoFailover) {
+					deferred = err
+				}
+				continue
+			}
+			return sh, err
 		}
 	}
-	if ans < 0 {
-		return sh, fmt.Errorf("the result names %q as its source, which is none of the %d upstreams", o.r.URI, len(ups))
+	if judged == 0 && deferred == nil {
+		return sh, fmt.Errorf("%w: every call failed", errNoFailover)
 	}
-	a := ups[ans]
-	sh = classify(a.c, a.srv, union)
-	sh.failedOver = contacted
-	want, err := reference(a.c, a.srv, union)
-	if err != nil {
-		return sh, err
+	return sh, deferred
+}
+
+// byPhase groups the logged requests by evaluation grid phase (start mod step); the group containing a request that
+// ends at `end` comes first.
+func byPhase(reqs []fakeprom.RangeRequest, step, end int64) [][]fakeprom.RangeRequest {
+	groups := map[int64][]fakeprom.RangeRequest{}
+	var order []int64
+	for _, r := range reqs {
+		p := ((r.Start % step) + step) % step
+		if _, ok := groups[p]; !ok {
+			order = append(order, p)
+		}
+		groups[p] = append(groups[p], r)
 	}
-	if err := judge(a.c, want, spansOf(o.r.Series.Ranges), union); err != nil {
-		return sh, fmt.Errorf("start=%d end=%d step=%ds, %d upstream(s), %d contacted, result attributed to upstream %d (%s): not the unsliced evaluation on that server: %w",
-			c.Start, c.End, c.Step, len(ups), contacted, ans, o.r.URI, err)
+	sort.SliceStable(order, func(i, j int) bool {
+		has := func(p int64) bool {
+			for _, r := range groups[p] {
+				if r.End == end {
+					return true
+				}
+			}
+			return false
+		}
+		return has(order[i]) && !has(order[j])
+	})
+	out := make([][]fakeprom.RangeRequest, 0, len(order))
+	for _, p := range order {
+		out = append(out, groups[p])
 	}
-	return sh, nil
+	return out
 }
 
 func run(c Case) (shape, error) {
@@ -975,6 +1072,25 @@ func genCase(t *rapid.T, kind string) Case {
 			}
 			c.Replicas = append(c.Replicas, rep)
 		}
+		// 0-2 more windows asked at the same time: narrower (ends some slices / steps earlier), wider, shifted
+		steps := int((c.End - c.Start) / c.Step)
+		for i, n := 0, rapid.IntRange(0, 2).Draw(t, "extra"); i < n; i++ {
+			var e [2]int
+			switch rapid.IntRange(0, 4).Draw(t, fmt.Sprintf("extra%d.kind", i)) {
+			case 0, 1: // narrower: same start, ends earlier
+				e = [2]int{0, -rapid.IntRange(1, max(1, steps-1)).Draw(t, fmt.Sprintf("extra%d.cut", i))}
+			case 2: // ends a whole number of slices earlier
+				e = [2]int{0, -int(L) * rapid.IntRange(1, 3).Draw(t, fmt.Sprintf("extra%d.slices", i))}
+			case 3: // wider
+				e = [2]int{0, rapid.IntRange(1, 2*int(L)).Draw(t, fmt.Sprintf("extra%d.more", i))}
+			default: // shifted
+				k := rapid.IntRange(-3, 3).Draw(t, fmt.Sprintf("extra%d.shift", i))
+				e = [2]int{k, k}
+			}
+			c.Extra = append(c.Extra, e)
+		}
+		// slices that are answered take a drawn while, so that a failing slice can overtake them
+		c.DelaysUs = rapid.SliceOfN(rapid.SampledFrom([]int{0, 500, 1500, 3000, 6000}), 3, 7).Draw(t, "delays")
 		return c
 	}
 	if kind == "http" {
@@ -1023,7 +1139,7 @@ var wsRe = regexp.MustCompile(`\s+`)
 
 func caseKey(c Case) string {
 	var b strings.Builder
-	fmt.Fprintf(&b, "%s|%d|%d|%d|%v|%v|%v|%v|%v|%v|%v", c.Kind, c.Start, c.End, c.Step, c.OrderKeys, c.PermKeys, c.Orders, c.Shifts, c.DelaysUs, c.Faults, c.Replicas)
+	fmt.Fprintf(&b, "%s|%d|%d|%d|%v|%v|%v|%v|%v|%v|%v|%v", c.Kind, c.Start, c.End, c.Step, c.OrderKeys, c.PermKeys, c.Orders, c.Shifts, c.DelaysUs, c.Faults, c.Replicas, c.Extra)
 	for _, s := range c.Series {
 		fmt.Fprintf(&b, "|%v%v", s.Labels, s.Runs)
 	}
